@@ -60,8 +60,13 @@ class ListBuilder(Periodic):
                                 local_set.add(bytes.fromhex(pubkey))
                                 pubkey_count += 1
                     event_count += 1
-                global_set.clear()
+                if list_kind == "allow" and local_set and self.initial:
+                    # the preconfigured keys belong to the new allow list from the start
+                    local_set.update(bytes.fromhex(p) for p in self.initial)
+                # add first, then drop what is gone: a concurrent validator must never
+                # see an enforced list as empty ("not enforced")
                 global_set.update(local_set)
+                global_set.intersection_update(local_set)
                 self.log.info(
                     "Loaded %s list with %d pubkeys from %d events",
                     list_kind,
